@@ -535,6 +535,7 @@ func main() {
 	r.RegisterReplay("sep", func(pj json.RawMessage) *mc.Viol { var c sepCase; json.Unmarshal(pj, &c); return checkSep(c) })
 	r.RegisterReplay("bsep", func(pj json.RawMessage) *mc.Viol { var c bsepCase; json.Unmarshal(pj, &c); return checkBatchSep(c) })
 	// sequence kinds are registered by runSeq; for --replay they must exist up front
+	r.RegisterArch386()
 	if r.IsReplay() {
 		for i := range allCodecs {
 			buildSeq(&allCodecs[i]).Register(r)
@@ -701,5 +702,6 @@ func main() {
 	r.Assume("well-formed = in the image of the format (TokenChallenge with non-empty issuer name and nonce <= 32 bytes; origin info a non-empty list of comma-free strings)",
 		"the contents of an object after a rejected Unmarshal are unspecified: the sequence model resumes checking after the next accepted Unmarshal",
 		"hand encoders are written from the struct comments / RFC 9578 / draft-ietf-privacypass-batched-tokens wire definitions")
+	r.RunArch386() // the whole check again as a 32-bit program
 	r.Finish()
 }
